@@ -87,4 +87,503 @@ theorem advs_snoc_pos (c : Cur) (a : List Rune) (r : Rune) :
     (advs c (a ++ [r])).pos = advPos c.nxt a := by
   rw [advs_snoc, adv_pos, advs_nxt]
 
+/-! ## What each lexing loop consumes -/
+
+/-- the routine consumed exactly `pre` and stopped before `rest'` -/
+def CleanRun (c : Cur) (rest : List Rune) (c' : Cur) (rest' : List Rune) : Prop :=
+  ∃ pre, rest = pre ++ rest' ∧ c' = advs c pre
+
+/-- the routine consumed everything and called `next()` once more at end of input -/
+def EofRun (c : Cur) (rest : List Rune) (c' : Cur) (rest' : List Rune) : Prop :=
+  rest' = [] ∧ c' = (advs c rest).advEOF
+
+theorem CleanRun.refl (c : Cur) (rest : List Rune) : CleanRun c rest c rest := ⟨[], rfl, rfl⟩
+
+theorem CleanRun.cons {c : Cur} {r : Rune} {rs : List Rune} {c' : Cur} {rest' : List Rune}
+    (h : CleanRun (c.adv r) rs c' rest') : CleanRun c (r :: rs) c' rest' := by
+  obtain ⟨pre, h1, h2⟩ := h
+  exact ⟨r :: pre, by simp [h1], by simp [h2]⟩
+
+theorem EofRun.cons {c : Cur} {r : Rune} {rs : List Rune} {c' : Cur} {rest' : List Rune}
+    (h : EofRun (c.adv r) rs c' rest') : EofRun c (r :: rs) c' rest' := by
+  obtain ⟨h1, h2⟩ := h
+  exact ⟨h1, by simp [h2]⟩
+
+theorem lexLineLoop_run (c : Cur) (lit rest : List Rune) :
+    CleanRun c rest (lexLineLoop c lit rest).cur (lexLineLoop c lit rest).rest ∧
+      (lexLineLoop c lit rest).err = none := by
+  induction rest generalizing c lit with
+  | nil => exact ⟨CleanRun.refl _ _, rfl⟩
+  | cons r rs ih =>
+    unfold lexLineLoop
+    split
+    · exact ⟨CleanRun.refl _ _, rfl⟩
+    · exact ⟨(ih _ _).1.cons, (ih _ _).2⟩
+
+theorem lexBlockLoop_run (c : Cur) (txt rest : List Rune) :
+    (CleanRun c rest (lexBlockLoop c txt rest).cur (lexBlockLoop c txt rest).rest ∨
+      EofRun c rest (lexBlockLoop c txt rest).cur (lexBlockLoop c txt rest).rest) ∧
+      (lexBlockLoop c txt rest).err = none := by
+  induction rest generalizing c txt with
+  | nil => exact ⟨Or.inr ⟨rfl, rfl⟩, rfl⟩
+  | cons r rs ih =>
+    unfold lexBlockLoop
+    split
+    · rename_i h
+      refine ⟨Or.inl ?_, rfl⟩
+      cases rs with
+      | nil => simp at h
+      | cons r2 rs2 =>
+        have : r2 = cSLASH := by simpa using h.2
+        subst this
+        exact ⟨[r, cSLASH], by simp, by simp⟩
+    · rcases (ih (c.adv r) (txt ++ [r])).1 with h | h
+      · exact ⟨Or.inl h.cons, (ih _ _).2⟩
+      · exact ⟨Or.inr h.cons, (ih _ _).2⟩
+
+/-- error positions of the literal routines are the lexer's current position -/
+theorem lexStringLoop_run_aux (n : Nat) : ∀ (c : Cur) (lit rest : List Rune), rest.length ≤ n →
+    (CleanRun c rest (lexStringLoop c lit rest).cur (lexStringLoop c lit rest).rest ∨
+      EofRun c rest (lexStringLoop c lit rest).cur (lexStringLoop c lit rest).rest) ∧
+      (∀ e, (lexStringLoop c lit rest).err = some e → e.pos = (lexStringLoop c lit rest).cur.pos) := by
+  induction n with
+  | zero =>
+    intro c lit rest h
+    have : rest = [] := List.eq_nil_of_length_eq_zero (Nat.le_zero.mp h)
+    subst this
+    unfold lexStringLoop
+    exact ⟨Or.inr ⟨rfl, rfl⟩, fun e he => by cases he; rfl⟩
+  | succ n ih =>
+    intro c lit rest h
+    cases rest with
+    | nil =>
+      unfold lexStringLoop
+      exact ⟨Or.inr ⟨rfl, rfl⟩, fun e he => by cases he; rfl⟩
+    | cons r rs =>
+      have hrs : rs.length ≤ n := by simpa using h
+      unfold lexStringLoop
+      simp only []
+      split
+      · exact ⟨Or.inl ⟨[r], by simp, by simp⟩, fun e he => by cases he⟩
+      · split
+        · exact ⟨Or.inl ⟨[r], by simp, by simp⟩, fun e he => by cases he; rfl⟩
+        · split
+          · split
+            · exact ⟨Or.inl ⟨[r], by simp, by simp⟩, fun e he => by cases he; rfl⟩
+            · rename_i e rs2
+              have hrs2 : rs2.length ≤ n := by simp at hrs; omega
+              split
+              · obtain ⟨h1, h2⟩ := ih ((c.adv r).adv e) (lit ++ [e]) rs2 hrs2
+                refine ⟨?_, h2⟩
+                rcases h1 with h1 | h1
+                · exact Or.inl h1.cons.cons
+                · exact Or.inr h1.cons.cons
+              · exact ⟨Or.inl ⟨[r], by simp, by simp⟩, fun e he => by cases he; rfl⟩
+          · obtain ⟨h1, h2⟩ := ih (c.adv r) (lit ++ [r]) rs hrs
+            refine ⟨?_, h2⟩
+            rcases h1 with h1 | h1
+            · exact Or.inl h1.cons
+            · exact Or.inr h1.cons
+
+theorem lexStringLoop_run (c : Cur) (lit rest : List Rune) :
+    (CleanRun c rest (lexStringLoop c lit rest).cur (lexStringLoop c lit rest).rest ∨
+      EofRun c rest (lexStringLoop c lit rest).cur (lexStringLoop c lit rest).rest) ∧
+      (∀ e, (lexStringLoop c lit rest).err = some e → e.pos = (lexStringLoop c lit rest).cur.pos) :=
+  lexStringLoop_run_aux rest.length c lit rest (Nat.le_refl _)
+
+theorem lexRegexLoop_run_aux (n : Nat) : ∀ (c : Cur) (lit rest : List Rune), rest.length ≤ n →
+    (CleanRun c rest (lexRegexLoop c lit rest).cur (lexRegexLoop c lit rest).rest ∨
+      EofRun c rest (lexRegexLoop c lit rest).cur (lexRegexLoop c lit rest).rest) ∧
+      (∀ e, (lexRegexLoop c lit rest).err = some e → e.pos = (lexRegexLoop c lit rest).cur.pos) := by
+  induction n with
+  | zero =>
+    intro c lit rest h
+    have : rest = [] := List.eq_nil_of_length_eq_zero (Nat.le_zero.mp h)
+    subst this
+    unfold lexRegexLoop
+    exact ⟨Or.inr ⟨rfl, rfl⟩, fun e he => by cases he; rfl⟩
+  | succ n ih =>
+    intro c lit rest h
+    cases rest with
+    | nil =>
+      unfold lexRegexLoop
+      exact ⟨Or.inr ⟨rfl, rfl⟩, fun e he => by cases he; rfl⟩
+    | cons r rs =>
+      have hrs : rs.length ≤ n := by simpa using h
+      unfold lexRegexLoop
+      simp only []
+      split
+      · exact ⟨Or.inl ⟨[r], by simp, by simp⟩, fun e he => by cases he; rfl⟩
+      · split
+        · split
+          · exact ⟨Or.inl ⟨[r], by simp, by simp⟩, fun e he => by cases he⟩
+          · rename_i e rs2
+            have hrs2 : rs2.length ≤ n := by simp at hrs; omega
+            split
+            · obtain ⟨h1, h2⟩ := ih ((c.adv r).adv e) (lit ++ [cSLASH]) rs2 hrs2
+              refine ⟨?_, h2⟩
+              rcases h1 with h1 | h1
+              · exact Or.inl h1.cons.cons
+              · exact Or.inr h1.cons.cons
+            · exact ⟨Or.inl ⟨[r], by simp, by simp⟩, fun e he => by cases he⟩
+        · obtain ⟨h1, h2⟩ := ih (c.adv r) (lit ++ [r]) rs hrs
+          refine ⟨?_, h2⟩
+          rcases h1 with h1 | h1
+          · exact Or.inl h1.cons
+          · exact Or.inr h1.cons
+
+theorem lexRegexLoop_run (c : Cur) (lit rest : List Rune) :
+    (CleanRun c rest (lexRegexLoop c lit rest).cur (lexRegexLoop c lit rest).rest ∨
+      EofRun c rest (lexRegexLoop c lit rest).cur (lexRegexLoop c lit rest).rest) ∧
+      (∀ e, (lexRegexLoop c lit rest).err = some e → e.pos = (lexRegexLoop c lit rest).cur.pos) :=
+  lexRegexLoop_run_aux rest.length c lit rest (Nat.le_refl _)
+
+theorem skipWhitespace_run (cls : Cls) (c : Cur) (rest : List Rune) :
+    CleanRun c rest (skipWhitespace cls c rest).1 (skipWhitespace cls c rest).2 := by
+  induction rest generalizing c with
+  | nil => exact CleanRun.refl _ _
+  | cons r rs ih =>
+    unfold skipWhitespace
+    split
+    · exact (ih _).cons
+    · exact CleanRun.refl _ _
+
+theorem lexIdentLoop_run (cls : Cls) (c : Cur) (lit rest : List Rune) :
+    CleanRun c rest (lexIdentLoop cls c lit rest).cur (lexIdentLoop cls c lit rest).rest ∧
+      (lexIdentLoop cls c lit rest).err = none := by
+  induction rest generalizing c lit with
+  | nil => exact ⟨CleanRun.refl _ _, rfl⟩
+  | cons r rs ih =>
+    unfold lexIdentLoop
+    split
+    · exact ⟨(ih _ _).1.cons, (ih _ _).2⟩
+    · exact ⟨CleanRun.refl _ _, rfl⟩
+
+theorem lexNumberLoop_run (cls : Cls) (c : Cur) (ty : TokenType) (lit : List Rune) (sd : Bool)
+    (rest : List Rune) :
+    CleanRun c rest (lexNumberLoop cls c ty lit sd rest).cur (lexNumberLoop cls c ty lit sd rest).rest ∧
+      (∀ e, (lexNumberLoop cls c ty lit sd rest).err = some e →
+        e.pos = (lexNumberLoop cls c ty lit sd rest).cur.pos) := by
+  induction rest generalizing c ty lit sd with
+  | nil => exact ⟨CleanRun.refl _ _, fun e he => by cases he⟩
+  | cons r rs ih =>
+    unfold lexNumberLoop
+    split
+    · exact ⟨(ih _ _ _ _).1.cons, (ih _ _ _ _).2⟩
+    · split
+      · split
+        · exact ⟨CleanRun.refl _ _, fun e he => by cases he; rfl⟩
+        · exact ⟨(ih _ _ _ _).1.cons, (ih _ _ _ _).2⟩
+      · exact ⟨CleanRun.refl _ _, fun e he => by cases he⟩
+
+
+theorem CleanRun.trans {c : Cur} {rest : List Rune} {c1 : Cur} {rest1 : List Rune} {c2 : Cur}
+    {rest2 : List Rune} (h1 : CleanRun c rest c1 rest1) (h2 : CleanRun c1 rest1 c2 rest2) :
+    CleanRun c rest c2 rest2 := by
+  obtain ⟨p1, e1, f1⟩ := h1
+  obtain ⟨p2, e2, f2⟩ := h2
+  exact ⟨p1 ++ p2, by simp [e1, e2], by rw [advs_append, ← f1, f2]⟩
+
+theorem advs_pos_prefix (c : Cur) (pre : List Rune) (h : pre ≠ []) :
+    ∃ b, b <+: pre ∧ b.length < pre.length ∧ (advs c pre).pos = advPos c.nxt b := by
+  refine ⟨pre.dropLast, List.dropLast_prefix pre, ?_, ?_⟩
+  · have := List.length_dropLast (xs := pre)
+    have : pre.length ≠ 0 := fun e => h (List.eq_nil_of_length_eq_zero e)
+    omega
+  · conv => lhs; rw [← List.dropLast_concat_getLast h]
+    exact advs_snoc_pos c _ _
+
+/-! ## Specification of `NextToken` -/
+
+/-- what one call of `nextToken` from `(c, rest)` does: it consumes a prefix `pre` (and then, at end of
+input only, possibly calls `next()` once more), the token spans `a … b` (relative to `c.nxt`), where
+`a ≤ b` are prefixes of `pre`, `b` a proper one unless the end of input was hit; an error sits at `b`. -/
+def StepSpec (c : Cur) (rest : List Rune) (s : LexStep) : Prop :=
+  ∃ pre a b, rest = pre ++ s.rest ∧ a <+: b ∧ b <+: pre ∧
+    ((pre ≠ [] ∧ b.length < pre.length ∧ s.cur = advs c pre) ∨
+      (s.rest = [] ∧ s.cur = (advs c pre).advEOF)) ∧
+    (s.err = none → s.tok.start = advPos c.nxt a ∧ s.tok.end_ = advPos c.nxt b) ∧
+    (∀ e, s.err = some e → e.pos = advPos c.nxt b)
+
+theorem stepSpec_of_run (c : Cur) (r : Rune) (rs : List Rune) (s : LexStep)
+    (hrun : CleanRun (c.adv r) rs s.cur s.rest ∨ EofRun (c.adv r) rs s.cur s.rest)
+    (htok : s.err = none → s.tok.start = c.nxt ∧ s.tok.end_ = s.cur.pos)
+    (herr : ∀ e, s.err = some e → e.pos = s.cur.pos) : StepSpec c (r :: rs) s := by
+  rcases hrun with ⟨pre', h1, h2⟩ | ⟨h1, h2⟩
+  · obtain ⟨b, hb1, hb2, hb3⟩ := advs_pos_prefix c (r :: pre') (by simp)
+    have hcur : s.cur = advs c (r :: pre') := by rw [h2]; rfl
+    refine ⟨r :: pre', [], b, by simp [h1], List.nil_prefix, hb1, Or.inl ⟨by simp, hb2, hcur⟩, ?_, ?_⟩
+    · intro he
+      obtain ⟨t1, t2⟩ := htok he
+      exact ⟨by simpa using t1, by rw [t2, hcur, hb3]⟩
+    · intro e he
+      rw [herr e he, hcur, hb3]
+  · have hcur : s.cur = (advs c (r :: rs)).advEOF := by rw [h2]; rfl
+    refine ⟨r :: rs, [], r :: rs, by simp [h1], List.nil_prefix, List.prefix_refl _,
+      Or.inr ⟨h1, hcur⟩, ?_, ?_⟩
+    · intro he
+      obtain ⟨t1, t2⟩ := htok he
+      exact ⟨by simpa using t1, by rw [t2, hcur, advEOF_pos, advs_nxt]⟩
+    · intro e he
+      rw [herr e he, hcur, advEOF_pos, advs_nxt]
+
+theorem StepSpec.cons {c : Cur} {r : Rune} {rs : List Rune} {s : LexStep}
+    (h : StepSpec (c.adv r) rs s) : StepSpec c (r :: rs) s := by
+  obtain ⟨pre, a, b, h1, h2, h3, h4, h5, h6⟩ := h
+  refine ⟨r :: pre, r :: a, r :: b, by simp [h1], ?_, ?_, ?_, ?_, ?_⟩
+  · exact (List.prefix_cons_inj r).mpr h2
+  · exact (List.prefix_cons_inj r).mpr h3
+  · rcases h4 with ⟨g1, g2, g3⟩ | ⟨g1, g2⟩
+    · exact Or.inl ⟨by simp, by simpa using g2, by simp [g3]⟩
+    · exact Or.inr ⟨g1, by simp [g2]⟩
+  · intro he
+    obtain ⟨t1, t2⟩ := h5 he
+    rw [adv_nxt] at t1 t2
+    exact ⟨by simpa using t1, by simpa using t2⟩
+  · intro e he
+    have := h6 e he
+    rw [adv_nxt] at this
+    simpa using this
+
+theorem litStep_fields (ty : TokenType) (p : Pos) (lr : LitRes) :
+    (litStep ty p lr).cur = lr.cur ∧ (litStep ty p lr).rest = lr.rest ∧
+      (litStep ty p lr).err = lr.err ∧
+      (lr.err = none → (litStep ty p lr).tok.start = p ∧ (litStep ty p lr).tok.end_ = lr.cur.pos ∧
+        (litStep ty p lr).tok.ty = ty ∧ (litStep ty p lr).tok.lit = lr.lit) := by
+  unfold litStep
+  cases h : lr.err with
+  | none => simp [mkTok]
+  | some e => simp
+
+theorem stepSpec_litStep (c : Cur) (r : Rune) (rs : List Rune) (ty : TokenType) (lr : LitRes)
+    (hrun : CleanRun (c.adv r) rs lr.cur lr.rest ∨ EofRun (c.adv r) rs lr.cur lr.rest)
+    (herr : ∀ e, lr.err = some e → e.pos = lr.cur.pos) :
+    StepSpec c (r :: rs) (litStep ty (c.adv r).pos lr) := by
+  obtain ⟨f1, f2, f3, f4⟩ := litStep_fields ty (c.adv r).pos lr
+  apply stepSpec_of_run
+  · rw [f1, f2]; exact hrun
+  · intro he
+    rw [f3] at he
+    obtain ⟨g1, g2, _⟩ := f4 he
+    exact ⟨by rw [g1]; rfl, by rw [g2, f1]⟩
+  · intro e he
+    rw [f3] at he
+    rw [f1]; exact herr e he
+
+theorem lexLineComment_run (c : Cur) (rest : List Rune) :
+    (CleanRun c rest (lexLineComment c rest).cur (lexLineComment c rest).rest ∨
+      EofRun c rest (lexLineComment c rest).cur (lexLineComment c rest).rest) ∧
+      (lexLineComment c rest).err = none := by
+  cases rest with
+  | nil => exact ⟨Or.inr ⟨rfl, rfl⟩, rfl⟩
+  | cons r rs =>
+    unfold lexLineComment
+    exact ⟨Or.inl (lexLineLoop_run _ _ _).1.cons, (lexLineLoop_run _ _ _).2⟩
+
+theorem lexBlockComment_run (c : Cur) (r : Rune) (rs : List Rune) :
+    (CleanRun c (r :: rs) (lexBlockComment c (r :: rs)).cur (lexBlockComment c (r :: rs)).rest ∨
+      EofRun c (r :: rs) (lexBlockComment c (r :: rs)).cur (lexBlockComment c (r :: rs)).rest) ∧
+      (lexBlockComment c (r :: rs)).err = none := by
+  unfold lexBlockComment
+  rcases (lexBlockLoop_run (c.adv r) [] rs).1 with h | h
+  · exact ⟨Or.inl h.cons, (lexBlockLoop_run _ _ _).2⟩
+  · exact ⟨Or.inr h.cons, (lexBlockLoop_run _ _ _).2⟩
+
+theorem lexDescriptionLine_run (cls : Cls) (c : Cur) (rest : List Rune) :
+    CleanRun c rest (lexDescriptionLine cls c rest).cur (lexDescriptionLine cls c rest).rest ∧
+      (lexDescriptionLine cls c rest).err = none := by
+  unfold lexDescriptionLine
+  have h1 := skipWhitespace_run cls c rest
+  generalize skipWhitespace cls c rest = sw at h1
+  obtain ⟨c1, rest1⟩ := sw
+  exact ⟨h1.trans (lexLineLoop_run _ _ _).1, (lexLineLoop_run _ _ _).2⟩
+
+theorem nextToken_spec (cls : Cls) (c : Cur) (rest : List Rune) :
+    StepSpec c rest (nextToken cls c rest) := by
+  induction rest generalizing c with
+  | nil =>
+    unfold nextToken
+    exact ⟨[], [], [], rfl, List.prefix_refl _, List.prefix_refl _, Or.inr ⟨rfl, rfl⟩,
+      fun _ => ⟨rfl, rfl⟩, fun e he => by cases he⟩
+  | cons r rs ih =>
+    unfold nextToken
+    simp only []
+    split
+    · -- operator
+      exact stepSpec_of_run c r rs _ (Or.inl (CleanRun.refl _ _)) (fun _ => ⟨rfl, rfl⟩)
+        (fun e he => by cases he)
+    · split
+      · split
+        · exact stepSpec_litStep c r rs _ _ (lexLineComment_run _ _).1
+            (fun e he => by rw [(lexLineComment_run _ _).2] at he; cases he)
+        · split
+          · rename_i hstar
+            cases rs with
+            | nil => simp at hstar
+            | cons r2 rs2 =>
+              exact stepSpec_litStep c r (r2 :: rs2) _ _ (lexBlockComment_run _ _ _).1
+                (fun e he => by rw [(lexBlockComment_run _ _ _).2] at he; cases he)
+          · exact stepSpec_litStep c r rs _ _ (lexRegexLoop_run _ _ _).1 (lexRegexLoop_run _ _ _).2
+      · split
+        · exact stepSpec_litStep c r rs _ _ (lexStringLoop_run _ _ _).1 (lexStringLoop_run _ _ _).2
+        · split
+          · exact stepSpec_litStep c r rs _ _ (Or.inl (lexDescriptionLine_run _ _ _).1)
+              (fun e he => by rw [(lexDescriptionLine_run _ _ _).2] at he; cases he)
+          · split
+            · exact stepSpec_of_run c r rs _ (Or.inl (CleanRun.refl _ _)) (fun _ => ⟨rfl, rfl⟩)
+                (fun e he => by cases he)
+            · split
+              · exact (ih _).cons
+              · split
+                · -- number
+                  have hn := lexNumberLoop_run cls (c.adv r) .int [r] false rs
+                  split
+                  · rename_i e he
+                    exact stepSpec_of_run c r rs _ (Or.inl hn.1) (fun h => by cases h)
+                      (fun e' he' => by cases he'; exact hn.2 e he)
+                  · exact stepSpec_of_run c r rs _ (Or.inl hn.1) (fun _ => ⟨rfl, rfl⟩)
+                      (fun e he => by cases he)
+                · split
+                  · -- identifier
+                    have hi := lexIdentLoop_run cls (c.adv r) [r] rs
+                    split
+                    · exact stepSpec_of_run c r rs _ (Or.inl hi.1) (fun _ => ⟨rfl, rfl⟩)
+                        (fun e he => by cases he)
+                    · split
+                      · exact stepSpec_of_run c r rs _ (Or.inl hi.1) (fun _ => ⟨rfl, rfl⟩)
+                          (fun e he => by cases he)
+                      · exact stepSpec_of_run c r rs _ (Or.inl hi.1) (fun _ => ⟨rfl, rfl⟩)
+                          (fun e he => by cases he)
+                  · exact stepSpec_of_run c r rs _ (Or.inl (CleanRun.refl _ _)) (fun h => by cases h)
+                      (fun e he => by cases he; rfl)
+
+
+/-! ## `AllTokens`: termination, token chain, error positions -/
+
+/-- tokens in source order: each spans `posAfter a … posAfter b` for prefixes `lo ≤ a ≤ b` of `src`,
+and the next token starts at or after `b` -/
+def TokChain (src : List Rune) : List Rune → List Token → Prop
+  | _, [] => True
+  | lo, t :: ts => ∃ a b, lo <+: a ∧ a <+: b ∧ b <+: src ∧ t.start = posAfter a ∧
+      t.end_ = posAfter b ∧ TokChain src b ts
+
+theorem TokChain.mono {src lo lo' : List Rune} {ts : List Token} (h : TokChain src lo ts)
+    (hl : lo' <+: lo) : TokChain src lo' ts := by
+  cases ts with
+  | nil => trivial
+  | cons t ts =>
+    obtain ⟨a, b, h1, h2⟩ := h
+    exact ⟨a, b, hl.trans h1, h2⟩
+
+theorem posAfter_append (p0 a : List Rune) : advPos (posAfter p0) a = posAfter (p0 ++ a) := by
+  unfold posAfter; rw [advPos_append]
+
+theorem nextToken_nil (cls : Cls) (c : Cur) :
+    (nextToken cls c []).err = none ∧ (nextToken cls c []).tok.ty = .eof := by
+  unfold nextToken; exact ⟨rfl, rfl⟩
+
+theorem allTokensLoop_spec (cls : Cls) (ff : Bool) (src : List Rune) :
+    ∀ (fuel : Nat) (c : Cur) (rest : List Rune) (toks : List Token) (errs : List LexErr)
+      (p0 : List Rune), rest.length < fuel →
+      (rest ≠ [] → src = p0 ++ rest ∧ c.nxt = posAfter p0) →
+      match allTokensLoop cls ff fuel c rest toks errs with
+      | .toks out => errs = [] ∧ ∃ new, out = toks ++ new ∧ TokChain src p0 new
+      | .errs out => ∃ new, out = errs ++ new ∧ ∀ e ∈ new, InFile src e.pos
+      | .nofuel => False := by
+  intro fuel
+  induction fuel with
+  | zero => intro c rest toks errs p0 h; omega
+  | succ fuel ih =>
+    intro c rest toks errs p0 hfuel hclean
+    unfold allTokensLoop
+    simp only []
+    cases rest with
+    | nil =>
+      obtain ⟨h1, h2⟩ := nextToken_nil cls c
+      simp only [h1, h2, if_true]
+      cases he : errs.isEmpty with
+      | true =>
+        simp only [if_true]
+        exact ⟨by simpa using he, [], by simp, trivial⟩
+      | false =>
+        simp only [Bool.false_eq_true, if_false]
+        exact ⟨[], by simp, fun e h => by cases h⟩
+    | cons r rs =>
+      obtain ⟨hsrc, hnxt⟩ := hclean (by simp)
+      obtain ⟨pre, a, b, e1, ab, bpre, hcur, htok, herr⟩ := nextToken_spec cls c (r :: rs)
+      generalize nextToken cls c (r :: rs) = s at *
+      -- facts about the state after the step
+      have hlen : s.rest.length < fuel := by
+        rcases hcur with ⟨g1, _, _⟩ | ⟨g1, _⟩
+        · have : (r :: rs).length = pre.length + s.rest.length := by rw [e1]; simp
+          have : pre.length ≠ 0 := fun e => g1 (List.eq_nil_of_length_eq_zero e)
+          simp at hfuel; simp at *; omega
+        · rw [g1]; simp at hfuel ⊢; omega
+      have hclean' : s.rest ≠ [] → src = (p0 ++ pre) ++ s.rest ∧ s.cur.nxt = posAfter (p0 ++ pre) := by
+        intro hne
+        rcases hcur with ⟨_, _, g3⟩ | ⟨g1, _⟩
+        · refine ⟨by rw [hsrc, e1]; simp, ?_⟩
+          rw [g3, advs_nxt, hnxt, posAfter_append]
+        · exact absurd g1 hne
+      have hbsrc : p0 ++ b <+: src := by
+        rw [hsrc, e1]
+        obtain ⟨t, rfl⟩ := bpre
+        exact ⟨t ++ s.rest, by simp⟩
+      have hbpre : p0 ++ b <+: p0 ++ pre := by
+        obtain ⟨t, rfl⟩ := bpre
+        exact ⟨t, by simp⟩
+      cases hse : s.err with
+      | some e =>
+        have hepos : InFile src e.pos := ⟨p0 ++ b, hbsrc, by rw [herr e hse, hnxt, posAfter_append]⟩
+        simp only []
+        cases ff with
+        | true =>
+          simp only [if_true]
+          exact ⟨[e], rfl, fun e' h => by simp at h; subst h; exact hepos⟩
+        | false =>
+          simp only [Bool.false_eq_true, if_false]
+          by_cases hty : s.tok.ty = .eof
+          · simp only [hty, if_true]
+            exact ⟨[e], rfl, fun e' h => by simp at h; subst h; exact hepos⟩
+          · simp only [hty, if_false]
+            have := ih s.cur s.rest (toks ++ [s.tok]) (errs ++ [e]) (p0 ++ pre) hlen hclean'
+            generalize allTokensLoop cls false fuel s.cur s.rest (toks ++ [s.tok]) (errs ++ [e]) = res
+              at this ⊢
+            cases res with
+            | toks out => exact absurd this.1 (by simp)
+            | errs out =>
+              obtain ⟨new, hn1, hn2⟩ := this
+              refine ⟨e :: new, by simp [hn1], ?_⟩
+              intro e' he'
+              rcases List.mem_cons.mp he' with h | h
+              · subst h; exact hepos
+              · exact hn2 e' h
+            | nofuel => exact this
+      | none =>
+        simp only []
+        obtain ⟨ts, te⟩ := htok hse
+        by_cases hty : s.tok.ty = .eof
+        · simp only [hty, if_true]
+          cases he : errs.isEmpty with
+          | true =>
+            simp only [if_true]
+            exact ⟨by simpa using he, [], by simp, trivial⟩
+          | false =>
+            simp only [Bool.false_eq_true, if_false]
+            exact ⟨[], by simp, fun e h => by cases h⟩
+        · simp only [hty, if_false]
+          have := ih s.cur s.rest (toks ++ [s.tok]) errs (p0 ++ pre) hlen hclean'
+          generalize allTokensLoop cls ff fuel s.cur s.rest (toks ++ [s.tok]) errs = res at this ⊢
+          cases res with
+          | toks out =>
+            obtain ⟨h0, new, hn1, hn2⟩ := this
+            refine ⟨h0, s.tok :: new, by simp [hn1], ?_⟩
+            refine ⟨p0 ++ a, p0 ++ b, List.prefix_append _ _, ?_, hbsrc, ?_, ?_, hn2.mono hbpre⟩
+            · obtain ⟨t, rfl⟩ := ab
+              exact ⟨t, by simp⟩
+            · rw [ts, hnxt, posAfter_append]
+            · rw [te, hnxt, posAfter_append]
+          | errs out => exact this
+          | nofuel => exact this
+
 end J5V.Bcl
